@@ -63,7 +63,10 @@ func GetFileDescriptor(ast *parser.Thrift) *FileDescriptor {
 
 	namespaceMap := map[string]string{}
 	for _, ns := range ast.Namespaces {
-		namespaceMap[ns.GetLanguage()] = ns.GetName()
+		// keep the first namespace stated for a language: it is the one the backends use
+		if _, ok := namespaceMap[ns.GetLanguage()]; !ok {
+			namespaceMap[ns.GetLanguage()] = ns.GetName()
+		}
 	}
 
 	consts := []*ConstDescriptor{}
